@@ -3,6 +3,7 @@
    results; ExcFacts.proc_boundary_pb links it to the model), iter_pb, frames and propagate. *)
 From Molt Require Import Model.Base Model.Value Model.State Model.Eval Model.Commands Model.Interp.
 From Molt Require Import Spec.SpecExc Proofs.ExcFacts.
+From Molt Require Proofs.NoPanicFacts.
 Local Open Scope N_scope.
 
 (* the model's procedure boundary is the pure function pb and leaves the state alone *)
@@ -85,7 +86,7 @@ Theorem C06_catch_options : forall e,
     /\ dict_get d k_code = Some (code_entry e)
     /\ dict_get d k_level = Some (level_entry e)
     /\ v_as_int (code_entry e) = inr (rcode_as_int (effective_code e))
-    /\ v_as_int (level_entry e) = inr (Z.of_N (x_level e)).
+    /\ v_as_int (level_entry e) = inr (to_i64 (Z.of_N (x_level e))).
 Proof. exact return_options_entries. Qed.
 Print Assumptions C06_catch_options.
 
@@ -97,3 +98,16 @@ Theorem C06_reraise : forall st r e d,
   cmd_return st (r :: dict_words d ++ [x_value e]) = (st, Err e).
 Proof. exact catch_reraise_id. Qed.
 Print Assumptions C06_reraise.
+
+(* the hypothesis on the level holds of every exception an evaluation raises (so of every
+   exception `catch` can store): levels come from the i64 -> usize cast of `return -level` and only
+   decrease *)
+Theorem C06_raised_level_fits : forall U fuel st v st' e,
+  NoPanicFacts.wf_state st -> eval_value U fuel st v = (st', Err e) -> x_level e < 2 ^ 64.
+Proof. exact NoPanicFacts.eval_exn_level. Qed.
+Print Assumptions C06_raised_level_fits.
+
+(* what `return` itself raises, and what the boundaries make of it, stays below 2^64 *)
+Theorem C06_return_level_fits : forall st argv st' e, cmd_return st argv = (st', Err e) -> lvl_ok e.
+Proof. exact cmd_return_lvl. Qed.
+Print Assumptions C06_return_level_fits.
